@@ -151,7 +151,7 @@ type FpRow struct {
 }
 type Obs struct {
 	Chunks []Chunk `json:"chunks"`
-	Err    string  `json:"err"`  // "" | "panic" | "error"
+	Err    string  `json:"err"` // "" | "panic" | "error"
 	ErrMsg string  `json:"errmsg,omitempty"`
 	FpTab  []FpRow `json:"fptab"`
 	// indices of the responses whose content at the end of the request differs from their content when received
@@ -172,7 +172,9 @@ type Case struct {
 	Wire   string `json:"wire_hex,omitempty"` // the bytes handed to the parser (only kept when small)
 	Obs    Obs    `json:"obs"`
 	NRows  int    `json:"nrows"` // number of entries submitted (for coverage accounting)
-	Coq    string `json:"coq,omitempty"`
+	// number of label buffers with a __ttl_days__ label in a non-final position that reach onEntries more than once
+	TTLMulti int    `json:"ttl_multi,omitempty"`
+	Coq      string `json:"coq,omitempty"`
 
 	members [][]member // Loki JSON: the members of every stream object in the order they were written
 }
@@ -450,6 +452,7 @@ func run(c *Case) {
 		hs.tab = append([]FpRow{}, c.Obs.FpTab...)
 	}
 	c.NRows = countEntries(c)
+	c.TTLMulti = ttlMulti(c)
 	c.Coq = coqCase(c)
 }
 
@@ -462,7 +465,19 @@ func countEntries(c *Case) int {
 		n += len(s.Samples)
 	}
 	for _, l := range c.Body.Influx {
-		n += len(l.Fields)
+		num, msg := 0, false
+		for _, f := range l.Fields {
+			if string(f.Name) == "message" {
+				msg = true
+			}
+			if f.Kind == "int" || f.Kind == "uint" || f.Kind == "float" {
+				num++
+			}
+		}
+		if msg {
+			num = 1 // a "message" line is one log entry
+		}
+		n += num
 	}
 	n += len(c.Body.DDLog)
 	for _, s := range c.Body.DDMet {
